@@ -207,6 +207,43 @@ def run(ctx):
             ctx.violation(l, {"stream": "tapscript-session", "impl": im, "why": "control block of a size other than 33+32m (m<=128) was not refused"})
         if lab == "valid":
             m = re.search(r"TDONE:([0-9a-f]{64})", im) if "trace" in im else None
+    interleaved_sessions(ctx, rnd)
+
+
+def interleaved_sessions(ctx, rnd):
+    """the real binary on a terminal: commands that are not steps (a bare `exec`, `exec` with operands, displays, `tf`) typed while the
+    commitment check is pending do not replace it — an invalid commitment still ends in its error, a valid one is still checked"""
+    import os, sys
+    from concurrent.futures import ThreadPoolExecutor
+    sys.path.insert(0, os.path.join(os.path.dirname(os.path.dirname(os.path.abspath(__file__))), "harness"))
+    import ptyrun
+    jobs = []
+    interludes = (["exec"], ["exec", "exec"], ["exec OP_1", "exec OP_DROP"], ["stack", "altstack", "vfexec", "print"], ["tf echo 1"], ["help"], ["exec nosuchopcode"], ["rewind"], [])
+    for m in (0, 1, 2):
+        s = S.build(rnd, "p2tr-script", {"path_len": m, "leaf_script": b"\x51", "leaf_args": [], "annex": False})
+        ver, vin, vout, lock = s.tx
+        w = list(vin[0][3]); ctrl = w[-1]
+        bad = [*w[:-1], ctrl[:1] + bytes([ctrl[1] ^ 1]) + ctrl[2:]]
+        txb = (ver, [(vin[0][0], vin[0][1], vin[0][2], bad, vin[0][4])], vout, lock)
+        for (label, tx) in (("valid", s.tx), ("invalid", txb)):
+            for il in interludes:
+                for at in (0, 1):
+                    cmds = ["step"] * at + il + ["step"] * (m + 6)
+                    jobs.append((label, m, il, at, ["--tx=" + P.ser_tx(tx).hex(), "--txin=" + P.ser_tx(s.txin).hex()], "\n".join(cmds) + "\n\x04"))
+    def one(j):
+        return ptyrun.run([os.path.join(ctx.bin, "btcdeb")] + j[4], "tty", "tty", j[5])
+    with ThreadPoolExecutor(max_workers=16) as ex:
+        res = list(ex.map(one, jobs))
+    for (label, m, il, at, argv, inp), (rc, out, err) in zip(jobs, res):
+        ctx.count("interleaved-sessions", 1)
+        ctx.nontrivial.add("ils:%s:%d:%s:%d" % (label, m, "+".join(il), at))
+        text = out + err
+        mismatch = "Witness program hash mismatch" in text
+        ended = "at end of script" in text
+        if (label == "invalid" and (not mismatch or ended)) or (label == "valid" and (mismatch or not ended)) or rc != 0:
+            ctx.violation("btcdeb %s ## commands=%r" % (" ".join(argv), inp), {"stream": "interleaved-sessions", "commitment": label, "path_len": m, "interlude": il, "after_steps": at,
+                          "rc": rc, "saw_mismatch_error": mismatch, "reached_end": ended, "tail": text[-500:],
+                          "why": "commands typed while the commitment check is pending changed its outcome"})
 
 
 def replay(ctx, case):
